@@ -262,7 +262,7 @@ EVENTS = ("keys-upload-result", "handshake-done", "handshake-failed", "late-clos
           "stream-error-other", "ping-tick", "pong")
 
 
-EXTRA_EVENTS = ("connect-refused-at-once", "app-ping", "app-pong", "stale-pong")
+EXTRA_EVENTS = ("connect-refused-at-once", "app-ping", "app-pong", "stale-pong", "stream-error-then-connect-before-the-loop-runs")
 
 
 def h_history(ctx, n, prefix=(), real_noise=False, extra=()):
@@ -306,6 +306,8 @@ def h_history(ctx, n, prefix=(), real_noise=False, extra=()):
         for e in EVENTS + tuple(extra):
             if e in ("connect-request", "connect-refused-at-once") and not (disp.state in ("up", "connecting")):
                 possible.append(e)
+            elif e == "stream-error-then-connect-before-the-loop-runs" and disp.state == "up" and g["authed"] and transport():
+                possible.append(e)      # the announcement of a close is deferred to the stack's loop: a connect request can be handled first
             elif e == "app-ping" and disp.state == "up" and g["authed"] and transport() and len(g["app_pings"]) < 1:
                 possible.append(e)      # the application pings the server itself (the command line client's /ping)
             elif e == "app-pong" and disp.state == "up" and g["app_pings"]:
@@ -347,6 +349,19 @@ def h_history(ctx, n, prefix=(), real_noise=False, extra=()):
         n_up = len([x for x in w.sent_nodes if getattr(x, "tag", None) == "iq" and x.getChild("list") is not None])
         n_sent = len(w.sent_nodes)
         raised = None
+        if ev == "stream-error-then-connect-before-the-loop-runs":
+            # a stream error (not a conflict) closes the connection; before the stack's loop delivers the deferred announcement, a connect
+            # request is handled and the new connection comes up; only then the loop runs.  One stream error plus one request: ONE new connection
+            inject(N("stream:error", {}, [N("ack")]))
+            connect()
+            if disp.state == "connecting":
+                disp.state = "up"
+                net.onConnected()
+            run_loop(st)
+            new = w.log[mark:]
+            obs.append(("#%d %s: one stream error and one connect request open exactly one new connection (%d)" % (step, ev, new.count("dispatcher.connect")), new.count("dispatcher.connect") == 1))
+            obs.append(("#%d %s: ... which is announced up once" % (step, ev), new.count("announced-up") == 1))
+            break
         if ev == "connect-request":
             connect()
             g["pending"] = True
@@ -827,6 +842,8 @@ def cases(tier):
     cs.append(dict(name="history+[prefix=up+success+ping-tick+peer-close+up+success,foreign pongs,len<=%d]" % (10 if q else 12), fn=h_history,
                    args=(10 if q else 12, up + ("success", "ping-tick", "peer-close") + up + ("success",), False, ("app-ping", "app-pong", "stale-pong")),
                    max_paths=2000000, timeout_s=900 if q else 3400, keep_samples=8, weight=150))
+    cs.append(dict(name="history+[prefix=up+success,connect request before the loop delivers a close,len<=4]", fn=h_history,
+                   args=(4, up + ("success",), False, ("stream-error-then-connect-before-the-loop-runs",)), max_paths=200000, timeout_s=600, keep_samples=8))
     cs.append(dict(name="keepalive[real thread body over %d periods]" % (3 if q else 4), fn=h_keepalive_thread, args=(3 if q else 4,), keep_samples=16, timeout_s=300))
     # the real network layer and asyncore dispatcher over a socket double
     nup = ("connect-request", "connect-completes")
